@@ -1,6 +1,6 @@
 """C05 — squash_changes is an all-or-nothing batch (DESIGN §5 C05)."""
 from ..report import Report
-from .common import run_hex, replay_hex
+from .common import add_scale, run_hex, replay_hex
 
 replay = replay_hex
 
@@ -38,4 +38,5 @@ def run(tier, seed):
                     exits=ex, state_cap=6000)
             run_hex(rep, f"H4xSL nested prune={prune}", universe="H4", values=("S", "L"), prune=prune, props=P + (("C06",) if prune else ()), batch_len=1,
                     exits=("commit", "abort"), nested=True, state_cap=6000)
+    add_scale(rep, "C05")
     return rep
